@@ -124,6 +124,8 @@ class C01(Prop):
             floor = FLOOR * dc.EPS * (abs(exact) + (sens[1] if sens else abs(xv) * S1))
             excess = max(err - floor, 0.0)
             ratio = excess / U if U > 0 else (0.0 if excess == 0 else math.inf)
+            if CALIBRATE and method == 'multicomplex' and self._known_class(case):
+                continue          # known finding classes do not enter the calibration maxima
             ctx.track('err/U|%s|%d|%s' % (method, n, bucket), ratio,
                       dict(f=exprs.show(case['tree']), x=xv, order=order, step=case['step'], lib=lib,
                            exact=exact, U=U, wrap=case.get('wrap')))
@@ -148,6 +150,11 @@ class C01(Prop):
             ctx.nontriv(dict(t=case['tree'], x=case['x'], m=method, n=n, o=order, s=case['step']))
             ctx.count('nontrivial|%s|n=%d' % (method, n))
         ctx.sample(dc.summary(case, ev))
+
+    def _known_class(self, case):
+        k = self.finding_key(case, Violation('envelope', ''))
+        return (k['pow_base_below_1e-15'] or k['tanh_arg_over_300'] or k['inverse_function_arg_below_1e-2']
+                or (case['n'] == 2 and set(k['ops']) & {'arctan', 'arcsin', 'arccos'}))
 
     def finding_key(self, case, v):
         big = max(exprs.max_abs_argument(case['tree'], float(xv), ('tanh',)) for xv in case['x'])
